@@ -426,6 +426,125 @@ def container_stream(ctx, res, n):
                 break
 
 
+def keyfile_history_stream(ctx, res):
+    """save / reload with the same key file after histories that involve more than one key file or more than one configuration of a
+    schema: an item or sub-configuration that was built and serialised on its own before it was attached to a root with its own key
+    file; two configurations of one schema, each with its own key file, holding the same secret; one configuration saved, its key file
+    replaced, saved again. The reload into a fresh configuration with the saving configuration's key file gives every secret back."""
+    import cincoconfig as cc
+    from cincoconfig.encryption import KeyFile
+    tmp = ctx.tmpdir()
+    n = [0]
+
+    def newkey():
+        n[0] += 1
+        p = os.path.join(tmp, "hist%d.key" % n[0])
+        with open(p, "wb") as fp:
+            fp.write(os.urandom(32))
+        return p
+
+    def schema_of(method, typed):
+        item = cc.Schema()
+        item.name = cc.StringField(default="n")
+        item.secret = cc.SecureField(method=method)
+        T = cc.make_type(item, "HistItem%d" % n[0]) if typed else item
+        s = cc.Schema()
+        s.secret = cc.SecureField(method=method)
+        s.items = cc.ListField(T, default=lambda: [])
+        if typed:
+            s.one = T
+        else:
+            s.one.name = cc.StringField(default="n")
+            s.one.secret = cc.SecureField(method=method)
+        return s, T
+
+    def reload_check(s, cfg, keypath, want, case):
+        for fmt in FORMATS:
+            fresh = s(key_filename=keypath)
+            try:
+                fresh.loads(cfg.dumps(format=fmt), format=fmt)
+                got = {"secret": fresh.secret, "items": [i.secret for i in fresh.items], "one": fresh.one.secret if fresh.one is not None else None}
+            except Exception as e:  # noqa
+                got = "raised %s: %s" % (type(e).__name__, str(e)[:80])
+            res.case(stable([case, fmt]), kind="key-history:" + case["history"])
+            if got != want:
+                res.violate("C02:reload-differs:key-history", "a secret does not come back when the saved document is loaded with the same key file",
+                            dict(case, fmt=fmt, want=want, reloaded=got))
+                return
+
+    for method in ("xor", "aes", "best"):
+        for typed in (False, True):
+            # (1) parts serialised on their own before being attached
+            for preview in ("dumps", "to_tree", "loads"):
+                s, T = schema_of(method, typed)
+                root_key = newkey()
+                cfg = s(key_filename=root_key)
+                cfg.secret = "root-secret"
+                parts = []
+                for k in range(2):
+                    it = T()
+                    it.secret = "item-secret-%d" % k
+                    try:
+                        if preview == "dumps":
+                            it.dumps(format="json")
+                        elif preview == "to_tree":
+                            it.to_tree()
+                        else:
+                            it.loads(it.dumps(format="json"), format="json")
+                    except Exception:  # noqa
+                        pass
+                    parts.append(it)
+                try:
+                    cfg.items.append(parts[0])
+                    if typed:
+                        cfg.one = parts[1]
+                    else:
+                        cfg.one.secret = "item-secret-1"
+                except Exception as e:  # noqa
+                    res.case(None, kind="key-history:setup-%s" % type(e).__name__)
+                    continue
+                want = {"secret": "root-secret", "items": ["item-secret-0"], "one": "item-secret-1"}
+                reload_check(s, cfg, root_key, want, {"stream": "key-history", "history": "part-serialised-alone-then-attached", "preview": preview, "method": method, "config_type": typed})
+            # (2) two configurations of one schema, two key files, one secret
+            s, T = schema_of(method, typed)
+            k1, k2 = newkey(), newkey()
+            a, b = s(key_filename=k1), s(key_filename=k2)
+            for c in (a, b):
+                c.secret = "shared-initial-password"
+                c.items = [{"name": "x"}]
+                c.items[0].secret = "shared-initial-password"
+                if c.one is None:
+                    c.one = T()
+                c.one.secret = "shared-initial-password"
+            a.dumps(format="json")
+            want = {"secret": "shared-initial-password", "items": ["shared-initial-password"], "one": "shared-initial-password"}
+            reload_check(s, b, k2, want, {"stream": "key-history", "history": "second-configuration-own-key-same-secret", "method": method, "config_type": typed})
+            reload_check(s, a, k1, want, {"stream": "key-history", "history": "first-configuration-after-second-saved", "method": method, "config_type": typed})
+            # (3) one configuration, saved, key file replaced, saved again
+            for how in ("generate", "overwrite", "repoint"):
+                s, T = schema_of(method, typed)
+                k1 = newkey()
+                cfg = s(key_filename=k1)
+                cfg.secret = "kept-secret"
+                cfg.items = [{"name": "x"}]
+                cfg.items[0].secret = "kept-secret"
+                if cfg.one is None:
+                    cfg.one = T()
+                cfg.one.secret = "kept-secret"
+                cfg.dumps(format="json")
+                now = k1
+                if how == "generate":
+                    KeyFile(k1).generate_key()
+                elif how == "overwrite":
+                    with open(k1, "wb") as fp:
+                        fp.write(os.urandom(32))
+                else:
+                    now = newkey()
+                    cfg._key_filename = now
+                want = {"secret": "kept-secret", "items": ["kept-secret"], "one": "kept-secret"}
+                reload_check(s, cfg, now, want, {"stream": "key-history", "history": "saved-key-replaced-saved-again", "how": how, "method": method, "config_type": typed})
+
+
 def P_plain(v):
     from cincoconfig.core import Config
     import cincoconfig as cc
@@ -443,6 +562,7 @@ def run(ctx, n_quick=400, n_thorough=6000):
     del PENDING[:]
     guard(res, "C02", env_empty_stream, ctx, res, ctx.n(3, 40))
     guard(res, "C02", container_stream, ctx, res, ctx.n(40, 1200))
+    guard(res, "C02", keyfile_history_stream, ctx, res)
     P.run_stream(ctx, res, "C02", ctx.n(n_quick, n_thorough), oracle, gen_ops=gen_ops, ops_len=(3, 10),
                  schema_opts={"virtual": True}, label="save-reload")
     replies = ctx.model([r for _, _, r in PENDING])
